@@ -44,8 +44,17 @@ def sched_of(line):
         w = w[2:]
     elif w and w[0] == "rej":
         w = w[1:]
-    if len(w) == 3 and w[0] == "s":
+    if len(w) in (3, 4) and w[0] == "s":
         return int(w[1]), int(w[2])
+    return None
+
+
+def air_type_of(line):
+    """type of the advertising PDU handed to the radio by this op (lower 4 bits of its header, printed by
+    the harnesses as t<n>): None if nothing was scheduled"""
+    w = line.split()
+    if w and w[-1].startswith("t") and w[-1][1:].isdigit() and "s" in w:
+        return int(w[-1][1:])
     return None
 
 
@@ -53,19 +62,24 @@ def proj_sched(op, line):
     """C24 talks about what is scheduled only (not about accepting connect requests)"""
     w = line.split()
     if w and w[0] == "acc":
-        return " ".join(w[2:])
-    if w and w[0] == "rej":
-        return " ".join(w[1:])
-    return line
+        w = w[2:]
+    elif w and w[0] == "rej":
+        w = w[1:]
+    if len(w) == 4 and w[0] == "s":
+        w = w[:3]            # the type of the advertising PDU is C25's business
+    return " ".join(w)
 
 
 def proj_accept(op, line):
-    """C25 talks about accepting / rejecting only (not about channels and delays)"""
+    """C25 talks about accepting / rejecting and about the type of the advertising PDU that is answered
+    (not about channels and delays)"""
     w = line.split()
+    t = air_type_of(line)
+    tt = "" if t is None else " t%d" % t
     if w and w[0] in ("acc", "rej"):
-        return " ".join(w[:2]) if w[0] == "acc" else "rej"
+        return " ".join(w[:2]) if w[0] == "acc" else "rej" + tt
     if w and w[0] == "s":
-        return "s"
+        return "s" + tt
     if w and w[0].startswith("v="):
         return w[1]          # the model also evaluates the (uncompilable) generic predicate: v=…
     return line
@@ -411,9 +425,10 @@ def gen_c25_session(rng, cfg):
         if rng.random() < 0.15:
             ops.append(rng.choice(["filter %d" % rng.randrange(2), "scanfilter %d" % rng.randrange(2),
                                    "wlremove %d" % rng.choice(universe), "wladd %d" % rng.choice(universe)]))
-        if len(types) > 1 and rng.random() < 0.1:
+        if len(types) > 1 and rng.random() < 0.2:
             ops.append("change %d" % rng.choice(types))
-            ops.append("timeout")
+            if rng.random() < 0.5:
+                ops.append("timeout")      # else: the next request answers the PDU of the old type
     return ops
 
 
@@ -652,6 +667,79 @@ def monitor_nrf(ops, outs):
     return hits
 
 
+# ---- change_advertising<>() at every point of the advertising cycle -----------------------------------------
+def switch_session(a, b, k, local, target, conn_filter, wl, requests, then=None):
+    """four-type advertiser (cfg 4): advertise with type `a`, `k` further PDUs, change_advertising< b >()
+    (then possibly < then >) and immediately the requests: the first one answers the PDU of type `a` that is
+    still on air; a rejected request makes the link layer send the next PDU, which is of the new type"""
+    ops = ["reset 4"]
+    if local != DEFAULT_LOCAL:
+        ops.append("local %d" % local)
+    if target is not None:
+        ops.append("direct %d" % target)
+    ops.append("change %d" % a)
+    for x in wl:
+        ops.append("wladd %d" % x)
+    ops += ["filter %d" % (1 if conn_filter else 0), "llstart", "start"]
+    ops += ["timeout"] * k
+    ops.append("change %d" % b)
+    sel, prop = a, b
+    if then is not None:
+        ops.append("change %d" % then)
+        prop = then
+    for init, mut in requests:
+        pdu = mutated_connect_ind(local, init, mut)
+        ops.append("recv " + pdu.hex())
+        on_air = sel in (0, 2, 3) or target is not None       # directed advertising without address sends nothing
+        if on_air and expect_accept(sel, local, target, conn_filter, set(wl), pdu):
+            ops += ["llstop", "llstart", "start"]
+        sel = prop
+    return ops
+
+
+def enum_switch_sessions():
+    """all 12 ordered pairs of advertising types x the switch after the PDU on 37 / 38 / 39 x {request from the
+    directed target, from a stranger} (+ connection filter on with the initiator listed / not listed for the
+    switches towards connectable undirected), each followed by a valid CONNECT_IND answering the old-type PDU,
+    the same request answering the new-type PDU, and single field mutations"""
+    sessions = []
+    init = 2 * 0x112233445566
+    stranger = 2 * 0x0badc0ffee42 + 1
+    muts = [{}, {}, {"rxadd": 1}, {"txadd": 1}, {"length": 33}, {"pdu_type": 3}, {}]
+    for a in range(4):
+        for b in range(4):
+            if a == b:
+                continue
+            for k in range(3):
+                for target, who in ((init, init), (stranger, init), (init, stranger)):
+                    if 1 not in (a, b) and target != init:
+                        continue
+                    sessions.append(switch_session(a, b, k, DEFAULT_LOCAL, target, False, [], [(who, m) for m in muts]))
+            if b == 0:
+                sessions.append(switch_session(a, b, 1, 2 * 0x665544332211, init, True, [init], [(init, m) for m in muts]))
+                sessions.append(switch_session(a, b, 2, DEFAULT_LOCAL, init, True, [stranger], [(init, m) for m in muts]))
+            for c in range(4):       # two switches before the PDU on air is answered
+                if c != b:
+                    sessions.append(switch_session(a, b, 0, DEFAULT_LOCAL, init, False, [], [(init, {}), (init, {})], then=c))
+    return sessions
+
+
+def gen_switch_session(rng):
+    universe = [rng.randrange(2, 1 << 49) for _ in range(3)]
+    universe.append(universe[0] ^ 1)
+    local = rng.choice([DEFAULT_LOCAL, rng.randrange(2, 1 << 49)])
+    target = rng.choice(universe + [None])
+    a, b = rng.sample(range(4), 2)
+    if target is None and a == 1:
+        a, b = b, a          # directed advertising without address sends nothing: nothing could be answered
+    reqs = []
+    for _ in range(rng.randrange(2, 8)):
+        who = rng.choice(universe + ([target] if target is not None else []))
+        reqs.append((who, {} if rng.random() < 0.6 else dict(rng.choice(LL_MUTATIONS)[1])))
+    return switch_session(a, b, rng.randrange(0, 7), local, target, rng.random() < 0.4, rng.sample(universe, rng.randrange(0, 4)), reqs,
+                          then=rng.choice([None, None, rng.randrange(4)]))
+
+
 def monitor_c25(ops, outs):
     """independent oracle: the property statement on octets, with Python sets; returns (key, what, k)"""
     hits = []
@@ -661,10 +749,32 @@ def monitor_c25(ops, outs):
     wl, conn_filter, scan_filter = set(), False, False
     target = None            # directed advertising address (None = not valid)
     selected, proposal = types[0], types[0]
+    air, air_target = None, None     # type of the advertising PDU handed to the radio (as printed by the harness) and whom it was directed at
+    AIR_NAME = {0: "ADV_IND", 1: "ADV_DIRECT_IND", 2: "ADV_NONCONN_IND", 6: "ADV_SCAN_IND"}
     for k, (op, out) in enumerate(zip(ops, outs)):
         w = op.split()
         if out == "bad-op":
             continue
+        if w[0] in ("recv", "recvfull") and out.split()[0] == "acc":
+            # independent of the bookkeeping of selected / proposal below: the PDU that is answered is the
+            # one the harness saw being handed to the radio
+            pdu = bytes.fromhex(w[1])
+            ini = int.from_bytes((pdu[2:8] + bytes(6))[:6], "little") * 2 + (1 if pdu[0] & 0x40 else 0)
+            if air is None:
+                # only possible on the mock link layer: handle_adv_receive called although nothing is scheduled,
+                # a callback the real link layer / radio never make (on the real link layer the op answers `idle`)
+                pass
+            elif air in (2, 6) or air not in AIR_NAME:
+                hits.append(("C25:connect-entered-on-%s" % AIR_NAME.get(air, "type-%d" % air),
+                             "op %d `%s`: connection entered in response to a %s PDU" % (k, op, AIR_NAME.get(air, air)), k))
+            elif air == 1 and ini != air_target:
+                hits.append(("C25:connect-entered-on-ADV_DIRECT_IND-for-other-device",
+                             "op %d `%s`: connection with %d entered in response to an ADV_DIRECT_IND directed at %s" % (k, op, ini, air_target), k))
+        t = air_type_of(out)
+        if t is not None:
+            air, air_target = t, target
+        elif w[0] == "llstop" or (w[0] in ("llstart", "timeout") and out == "-") or (w[0] in ("recv", "recvfull") and out in ("rej -", "idle")):
+            air = None
         if w[0] == "local":
             local = int(w[1]) % (1 << 49)
         elif w[0] == "direct":
@@ -672,6 +782,7 @@ def monitor_c25(ops, outs):
             target = a if a != 1 else None
             if out.startswith("s "):
                 selected = proposal
+                air_target = target
         elif w[0] == "change":
             proposal = int(w[1])
         elif w[0] in ("llstart", "timeout", "start", "startn"):
@@ -741,6 +852,10 @@ def run_c25(ctx, replay_path=None):
     n = 4000 if ctx.thorough else 400
     for i in range(n):
         sessions.append(gen_c25_session(ctx.rng, [0, 5, 4, 0, 5, 4, 6, 7, 1, 4][i % 10]))
+    # change_advertising<>() at every point of the advertising cycle, requests answering the old-type PDU
+    switch_sessions = enum_switch_sessions() + [gen_switch_session(ctx.rng) for _ in range(400 if ctx.thorough else 40)]
+    sessions += switch_sessions
+    res.count("switch-sessions", len(switch_sessions))
     impl, model, dis = ctx.run_pair(sessions, proj_accept)
     for d in dis:
         ops = ctx.shrink_disagreement(sessions[d["session"]], proj_accept) if len(res.disagreements) < 2 else sessions[d["session"]]
@@ -774,7 +889,7 @@ def run_c25(ctx, replay_path=None):
                 return any(h[0] == key for h in monitor_c25(cand, o["out"]))
             res.failures.append({"key": key, "what": what, "ops": ctx.shrink(ops[:k + 1], fails, budget=60)})
     # ---- the same decision on the REAL link_layer<> driven on tests/test_tools/test_radio --------------
-    ll_sessions = enum_ll_sessions()
+    ll_sessions = enum_ll_sessions() + switch_sessions
     for i in range(600 if ctx.thorough else 60):
         cfg, sel = LL_TYPES[i % len(LL_TYPES)]
         ll_sessions.append(gen_ll_session(ctx.rng, cfg, sel))
@@ -870,6 +985,8 @@ PROPS = {
     ),
     "C25": dict(
         theorems=["BluetoeModel.Adv.connect_accepted_iff", "BluetoeModel.Adv.validConnectBase_iff",
+                  "BluetoeModel.Adv.connect_accepted_on_air", "BluetoeModel.Adv.selected_moves_only_when_scheduling",
+                  "BluetoeModel.Adv.change_frame",
                   "BluetoeModel.Adv.nonconnectable_never_accepts", "BluetoeModel.Adv.scan_valid_iff",
                   "BluetoeModel.Adv.nrf_scan_answered_iff", "BluetoeModel.Adv.nrf_answers_only_if",
                   "BluetoeModel.Adv.nrf_scan_partial"],
